@@ -145,16 +145,22 @@ CODE = """
 M3B = dict(file="src/color/mappers.rs", name="fv_m3b", code="""
     // documented sRGB transfer functions (IEC 61966-2-1): the linear segments and their thresholds
     #[kani::proof]
+    #[kani::unwind(12)]
     fn m3_srgb_linear_segments() {
-        let x: f32 = kani::any();
-        kani::assume(x >= 0.0 && x <= 1.0);
-        if x < 0.04045 { assert!(srgb_to_linear(x) == x / 12.92); }
-        if x < 0.0031308 { assert!(linear_to_srgb(x) == 12.92 * x); }
-        assert!(srgb_to_linear(0.0) == 0.0 && linear_to_srgb(0.0) == 0.0);
-        // monotone on the linear segments
-        let y: f32 = kani::any();
-        kani::assume(y >= x && y < 0.0031308);
-        assert!(linear_to_srgb(x) <= linear_to_srgb(y) && srgb_to_linear(x) <= srgb_to_linear(y));
+        // concrete sample points below the documented thresholds (a symbolic x makes SAT prove two f32 dividers equivalent: no answer
+        // in 25 min); above the thresholds the functions call powf, which has no model (N1)
+        const BELOW_04045: [f32; 8] = [0.0, 0.0001, 0.001, 0.0031308, 0.01, 0.02, 0.04, 0.040449];
+        const BELOW_0031308: [f32; 8] = [0.0, 0.00001, 0.0001, 0.00031308, 0.001, 0.002, 0.003, 0.0031307];
+        let mut i = 0;
+        while i < 8 {
+            assert!(srgb_to_linear(BELOW_04045[i]) == BELOW_04045[i] / 12.92);
+            assert!(linear_to_srgb(BELOW_0031308[i]) == 12.92 * BELOW_0031308[i]);
+            if i > 0 {
+                assert!(srgb_to_linear(BELOW_04045[i - 1]) <= srgb_to_linear(BELOW_04045[i]));
+                assert!(linear_to_srgb(BELOW_0031308[i - 1]) <= linear_to_srgb(BELOW_0031308[i]));
+            }
+            i += 1;
+        }
     }
 """)
 
@@ -182,8 +188,9 @@ UNIT = dict(
             dict(name="m3_elem_value", kind="complete", timeout=900, props=["C16"], claim="entry == round(y * max) for every function value y in [0,1] (u8 and u16 tables); y=0 -> 0, y=1 -> max"),
             dict(name="m3_elem_monotone", kind="complete", timeout=900, props=["C16"], claim="y1 <= y2 => entry(y1) <= entry(y2): a monotone transfer function gives a monotone table"),
             dict(name="m3_elem_argument", kind="complete", timeout=900, props=["C16"], claim="argument i/(SIZE-1): 0 at the first entry, 1 at the last, non-decreasing (256 and 65536 entry tables)"),
-            dict(name="m3_srgb_linear_segments", kind="complete", timeout=900, props=["C16"],
-                 claim="sRGB mapper: below the documented thresholds (0.04045 / 0.0031308) both transfer functions are the documented linear segments "
+            dict(name="m3_srgb_linear_segments", kind="bounded", timeout=900, props=["C16"],
+                 bound="8 sample points below each documented threshold (0.04045 / 0.0031308)",
+                 claim="sRGB mapper: below the documented thresholds both transfer functions are the documented linear segments "
                        "(x/12.92, 12.92x), 0 maps to 0, monotone there; the power segments are N1"),
             dict(name="m3_rows_u16x2_to_u8x2_two_image", kind="bounded", timeout=1500, bound="3 pixels U8x2 -> U8x2 (two images), arbitrary 256-entry table, all contents",
                  claim="two-image path, 2-component pixels: colour looked up, alpha depth-converted at even and odd pixel positions; spare pixel untouched"),
